@@ -88,6 +88,11 @@ def const_family(mode: str, version: int, seed: int, thorough: bool = False):
                   [("EnumInt", "OnComplete", "OptIn"), ("Int", 1), ("EnumInt", "TxnType", "Payment"), ("EnumInt", "OnComplete", "DeleteApplication"),
                    ("Int", 5), ("EnumInt", "TxnType", "ApplicationCall"), ("Int", 6), ("EnumInt", "TxnType", "ApplicationCall"),
                    ("EnumInt", "OnComplete", "NoOp"), ("Int", 0), ("EnumInt", "TxnType", "Unknown")]))
+    allnames = [("EnumInt", "OnComplete", n) for n in ("NoOp", "OptIn", "CloseOut", "ClearState", "UpdateApplication", "DeleteApplication")] + \
+               [("EnumInt", "TxnType", n) for n in ("Unknown", "Payment", "KeyRegistration", "AssetConfig", "AssetTransfer", "AssetFreeze", "ApplicationCall")]
+    out.append(mk(mode, version, "int:enums-all-once", allnames))
+    out.append(mk(mode, version, "int:enums-all-twice", allnames + allnames[::-1]))
+    out.append(mk(mode, version, "int:enums-with-equal-ints", allnames + [("Int", k) for k in range(7)] + allnames[3:9]))
     out.append(mk(mode, version, "int:tmpl",
                   [("TmplInt", "TMPL_A"), ("Int", 7), ("TmplInt", "TMPL_A"), ("TmplInt", "TMPL_B"), ("Int", 7), ("Int", 300), ("Int", 300),
                    ("TmplInt", "TMPL_C"), ("TmplInt", "TMPL_C"), ("TmplInt", "TMPL_C"), ("Int", 9), ("Int", 9), ("Int", 8), ("Int", 8), ("Int", 6), ("Int", 6)]))
